@@ -227,3 +227,17 @@ def close(a, b, tol=1e-9):
     if a == b:
         return True
     return abs(a - b) <= tol * max(1.0, abs(a), abs(b))
+
+
+def teq(a, b):
+    """bitwise-style tensor equality that treats NaN as equal to NaN (a diverged
+    training run must not make an identity check fail)"""
+    import torch
+
+    if a.shape != b.shape or a.dtype != b.dtype:
+        return False
+    if torch.equal(a, b):
+        return True
+    if a.is_floating_point():
+        return bool(((a == b) | (a.isnan() & b.isnan())).all())
+    return False
